@@ -42,6 +42,22 @@ theorem mkAccessory_uncached (aid : Option Nat) (defs : List (SvcDef V P)) (o : 
 theorem emptyAccessory_uncached : AccUncached (emptyAccessory : Accessory V P) := by
   intro sv hsv; cases hsv
 
+theorem forget_uncached (a : Accessory V P) (o : Nat) (h : AccUncached a) : AccUncached (a.forget o) := by
+  intro sv' hsv' c' hc'
+  simp only [Accessory.forget, Accessory.modChar, List.mem_map] at hsv'
+  obtain ⟨sv, hsv, rfl⟩ := hsv'
+  simp only [Service.modChar, List.mem_map] at hc'
+  obtain ⟨c, hc, rfl⟩ := hc'
+  split
+  · exact ⟨rfl, rfl⟩
+  · exact h sv hsv c hc
+
+theorem forget?_uncached (a : Accessory V P) (o : Option Nat) (h : AccUncached a) :
+    AccUncached (a.forget? o) := by
+  cases o with
+  | none => exact h
+  | some o => exact forget_uncached a o h
+
 theorem onAcc_uncached (s : Db V P) (n : Nat) (aid : Nat) (f : Accessory V P → Option (Accessory V P × Res))
     (F : Accessory V P → Accessory V P) (hs : s.GoodN n) (hu : s.Uncached)
     (hf : ∀ ka ∈ s.assoc, ka.1 = aid → ∃ r, f ka.2 = some (F ka.2, r))
@@ -138,41 +154,24 @@ theorem step_uncached (s : Db V P) (op : Op V P) (hs : s.Good) (hu : s.Uncached)
     · exact hu _ (by simp [Db.assoc])
     · exact hu _ (by simp [Db.assoc, hkb])
   | assign aid o =>
-    simp only [Db.step]
-    exact ⟨onAcc_uncached s s.nextObj aid
-        (fun a => some ({ a with iidm := a.iidm.assign o }, Res.ok none))
-        (fun a => { a with iidm := a.iidm.assign o }) hs hu (fun ka _ _ => ⟨_, rfl⟩) (fun a ha => ha),
-      onAcc_no_keyError s aid _ (fun ka _ _ => ⟨_, _, rfl, by simp⟩)⟩
+    rw [step_assign]
+    exact ⟨onAcc_uncached s s.nextObj aid (fAssign o) (FAssign o) hs hu
+        (fun ka _ _ => let ⟨r, e, _⟩ := fAssign_eq o ka.2; ⟨r, e⟩) (fun a ha => forget_uncached _ o ha),
+      onAcc_no_keyError s aid _ (fun ka _ _ => let ⟨r, e, h⟩ := fAssign_eq o ka.2; ⟨_, r, e, h⟩)⟩
   | removeObj aid o =>
-    simp only [Db.step]
-    have hf : ∀ ka ∈ s.assoc, ka.1 = aid → ∃ r,
-        (ka.2.iidm.removeObj o).map (fun mr => (({ ka.2 with iidm := mr.1 } : Accessory V P), Res.ok mr.2))
-          = some (({ ka.2 with iidm := ((ka.2.iidm.removeObj o).map (·.1)).getD ka.2.iidm } : Accessory V P), r) := by
-      intro ka hka _
-      obtain ⟨m', r, e, _⟩ := Iid.removeObj_good (hs.accs ka hka).2.1 o
-      exact ⟨Res.ok r, by rw [e]; rfl⟩
-    refine ⟨onAcc_uncached s s.nextObj aid
-        (fun a => (a.iidm.removeObj o).map (fun mr => ({ a with iidm := mr.1 }, Res.ok mr.2)))
-        (fun a => { a with iidm := ((a.iidm.removeObj o).map (·.1)).getD a.iidm }) hs hu hf (fun a ha => ha), ?_⟩
-    apply onAcc_no_keyError
-    intro ka hka _
-    obtain ⟨m', r, e, _⟩ := Iid.removeObj_good (hs.accs ka hka).2.1 o
-    exact ⟨_, Res.ok r, by rw [e]; rfl, by simp⟩
+    rw [step_removeObj]
+    exact ⟨onAcc_uncached s s.nextObj aid (fRemoveObj o) (FRemoveObj o) hs hu
+        (fun ka hka _ => let ⟨r, e, _⟩ := fRemoveObj_eq o ka.2 (hs.accs ka hka).2.1; ⟨r, e⟩)
+        (fun a ha => forget_uncached _ o ha),
+      onAcc_no_keyError s aid _
+        (fun ka hka _ => let ⟨r, e, h⟩ := fRemoveObj_eq o ka.2 (hs.accs ka hka).2.1; ⟨_, r, e, h⟩)⟩
   | removeIid aid i =>
-    simp only [Db.step]
-    have hf : ∀ ka ∈ s.assoc, ka.1 = aid → ∃ r,
-        (ka.2.iidm.removeIid i).map (fun mr => (({ ka.2 with iidm := mr.1 } : Accessory V P), Res.ok mr.2))
-          = some (({ ka.2 with iidm := ((ka.2.iidm.removeIid i).map (·.1)).getD ka.2.iidm } : Accessory V P), r) := by
-      intro ka hka _
-      obtain ⟨m', r, e, _⟩ := Iid.removeIid_good (hs.accs ka hka).2.1 i
-      exact ⟨Res.ok r, by rw [e]; rfl⟩
-    refine ⟨onAcc_uncached s s.nextObj aid
-        (fun a => (a.iidm.removeIid i).map (fun mr => ({ a with iidm := mr.1 }, Res.ok mr.2)))
-        (fun a => { a with iidm := ((a.iidm.removeIid i).map (·.1)).getD a.iidm }) hs hu hf (fun a ha => ha), ?_⟩
-    apply onAcc_no_keyError
-    intro ka hka _
-    obtain ⟨m', r, e, _⟩ := Iid.removeIid_good (hs.accs ka hka).2.1 i
-    exact ⟨_, Res.ok r, by rw [e]; rfl, by simp⟩
+    rw [step_removeIid]
+    exact ⟨onAcc_uncached s s.nextObj aid (fRemoveIid i) (FRemoveIid i) hs hu
+        (fun ka hka _ => let ⟨r, e, _⟩ := fRemoveIid_eq i ka.2 (hs.accs ka hka).2.1; ⟨r, e⟩)
+        (fun a ha => forget?_uncached _ _ ha),
+      onAcc_no_keyError s aid _
+        (fun ka hka _ => let ⟨r, e, h⟩ := fRemoveIid_eq i ka.2 (hs.accs ka hka).2.1; ⟨_, r, e, h⟩)⟩
 
 theorem init_uncached (isBridge : Bool) (defs : List (SvcDef V P)) :
     (Db.init isBridge defs : Db V P).Uncached := by
